@@ -63,7 +63,7 @@ func init() {
 		ec := curveByName(val.AsAtom(a[0]))
 		p := val.AsInts(a[6])
 		pf := &mta.RangeProofAlice{Z: p[0], U: p[1], W: p[2], S: p[3], S1: p[4], S2: p[5]}
-		pk := &paillier.PublicKey{N: val.AsInt(a[1])}
+		pk := paiPKObj(val.AsInt(a[1]))
 		return okb(pf.Verify(ec, pk, val.AsInt(a[2]), val.AsInt(a[3]), val.AsInt(a[4]), val.AsInt(a[5])))
 	})
 	bob := func(p []*big.Int) *mta.ProofBob {
@@ -72,14 +72,14 @@ func init() {
 	// bob_verify curve #session N NTilde h1 h2 c1 c2 [10]
 	vc.Register("bob_verify", func(a []val.V) val.V {
 		ec := curveByName(val.AsAtom(a[0]))
-		pk := &paillier.PublicKey{N: val.AsInt(a[2])}
+		pk := paiPKObj(val.AsInt(a[2]))
 		pf := bob(val.AsInts(a[8]))
 		return okb(pf.Verify(sessBuf(a[1]), ec, pk, val.AsInt(a[3]), val.AsInt(a[4]), val.AsInt(a[5]), val.AsInt(a[6]), val.AsInt(a[7])))
 	})
 	// bobwc_verify curve #session N NTilde h1 h2 c1 c2 [10] [U] [X]
 	vc.Register("bobwc_verify", func(a []val.V) val.V {
 		ec := curveByName(val.AsAtom(a[0]))
-		pk := &paillier.PublicKey{N: val.AsInt(a[2])}
+		pk := paiPKObj(val.AsInt(a[2]))
 		U, X := pointOf(ec, a[9]), pointOf(ec, a[10])
 		if U == nil || X == nil {
 			return val.Err
